@@ -16,8 +16,8 @@
     production, so Verify() fails). *)
 From Coq Require Import List.
 From Algo.Grammar Require Import CFG.
-From Algo.C08 Require Import Model Spec ProofsBase ProofsLang1 ProofsLang2 ProofsLang3 ProofsLang4 Names NamesProofs.
-From Algo.C09 Require Import Model Concrete Proofs ProofsCNF ProofsVerify ProofsCycles.
+From Algo.C08 Require Import Model Spec ProofsBase ProofsLang1 ProofsLang2 ProofsLang3 ProofsLang4 ProofsLF ProofsELR Names NamesProofs.
+From Algo.C09 Require Import Model Concrete Proofs ProofsCNF ProofsVerify ProofsCycles ProofsELR.
 Import ListNotations.
 
 Section C09.
@@ -115,6 +115,30 @@ Section C09.
       exact (proj2 (ok_or_names_ok _ _ _ (cycles_total teqb neqb fresh teqb_spec neqb_spec fresh_spec G (valid_wf G HG)) H)).
   Qed.
 
+  (** EliminateLeftRecursion leaves no left recursion, direct or indirect (checker
+      [no_left_recursion]: the left-corner graph with nullable skipping is acyclic), for every
+      order that lists the non-terminals of the cycle-free grammar exactly once — what
+      OrderNonTerminals returns; the driver checks this of the order it reads from the real code.
+      With the loop bound of the original code (j < i-1, D09a) this theorem is false. *)
+  Theorem C09_left_recursion_post : forall (order : gram -> list N) (G G' : gram), valid G ->
+    (forall G1, NoDup (order G1) /\ forall A, In A (nonterms G1) <-> In A (order G1)) ->
+    left_recursion_elim teqb neqb fresh order G = Ok G' ->
+    no_left_recursion neqb G' = true /\ verify_symbols teqb neqb G' = true.
+  Proof.
+    intros order G G' HG Hord H. split.
+    - exact (elr_post teqb neqb fresh teqb_spec neqb_spec fresh_spec order G G' (valid_wf G HG) Hord H).
+    - apply (verify_symbols_spec teqb neqb teqb_spec neqb_spec).
+      exact (proj2 (ok_or_names_ok _ _ _ (left_recursion_elim_total teqb neqb fresh teqb_spec neqb_spec fresh_spec order G (valid_wf G HG) (fun G1 => proj1 (Hord G1))) H)).
+  Qed.
+
+  (** LeftFactor's result declares every symbol it uses (its normal form is refuted below) *)
+  Theorem C09_left_factor_symbols : forall G G' : gram, valid G -> left_factor teqb neqb fresh G = Ok G' ->
+    verify_symbols teqb neqb G' = true.
+  Proof.
+    intros G G' HG H. apply (verify_symbols_spec teqb neqb teqb_spec neqb_spec).
+    exact (proj2 (ok_or_names_ok _ _ _ (left_factor_total teqb neqb fresh teqb_spec neqb_spec fresh_spec G (valid_wf G HG)) H)).
+  Qed.
+
   (** [left_factored]: no two different alternatives of a head begin with the same symbol *)
   Theorem C09_left_factored_correct : forall G : gram,
     left_factored teqb neqb G = true <->
@@ -123,8 +147,6 @@ Section C09.
   Proof. exact (left_factored_spec teqb neqb teqb_spec neqb_spec). Qed.
 
   (** full statements not (yet) proved on the model; checked on the Go outputs by the driver *)
-  Definition C09_left_recursion_post_full : Prop := forall (order : gram -> list N) (G G' : gram), valid G ->
-    left_recursion_elim teqb neqb fresh order G = Ok G' -> no_left_recursion neqb G' = true.
   Definition C09_verify_full (X : gram -> res gram) : Prop := forall G G' : gram, valid G ->
     X G = Ok G' -> verify teqb neqb G' = true.
   Definition C09_left_factor_post_full : Prop := forall G G' : gram, valid G ->
@@ -175,5 +197,7 @@ Print Assumptions C09_del_verify.
 Print Assumptions C09_unit_verify.
 Print Assumptions C09_cycles_post.
 Print Assumptions C09_left_factored_correct.
+Print Assumptions C09_left_recursion_post.
+Print Assumptions C09_left_factor_symbols.
 Print Assumptions C09_left_factor_post_refuted.
 Print Assumptions C09_del_verify_refuted.
